@@ -1,16 +1,69 @@
-"""Process-parallel map over cases (fork: workers inherit the prepared files/oracle answers copy-on-write)."""
-import multiprocessing as mp
+"""Process-parallel map over cases (fork: workers inherit the prepared files/oracle answers copy-on-write).
+A worker that dies (zfpy reading past a short buffer, say) does not hang the run: its chunk is re-run item by item
+and the item that kills its process is reported as CRASH."""
 import os
+import pickle
+import tempfile
 
 G = {}          # set by the caller before pmap; read by the worker function
+
+
+class Crash:
+    def __init__(self, status):
+        self.status = status
+
+    def __repr__(self):
+        return f'CRASH(status={self.status})'
+
+
+def _run_chunk(fn, chunk, path):
+    pid = os.fork()
+    if pid == 0:
+        code = 0
+        try:
+            out = [fn(x) for x in chunk]
+            with open(path, 'wb') as f:
+                pickle.dump(out, f)
+        except BaseException:
+            import traceback
+            traceback.print_exc()
+            code = 3
+        finally:
+            os._exit(code)
+    return pid
 
 
 def pmap(fn, items, procs=None, chunksize=None):
     items = list(items)
     procs = procs or min(16, os.cpu_count() or 1)
-    if len(items) < 8 or procs == 1 or os.environ.get('VZ_SERIAL'):
+    if len(items) < 4 or procs == 1 or os.environ.get('VZ_SERIAL'):
         return [fn(x) for x in items]
-    ctx = mp.get_context('fork')
-    chunksize = chunksize or max(1, len(items) // (procs * 8))
-    with ctx.Pool(procs) as pool:
-        return pool.map(fn, items, chunksize)
+    chunksize = chunksize or max(1, min(64, len(items) // (procs * 4)))
+    chunks = [(i, items[i:i + chunksize]) for i in range(0, len(items), chunksize)]
+    results = [None] * len(items)
+    d = tempfile.mkdtemp(prefix='vzpar-')
+    pending = list(chunks)
+    running = {}
+    try:
+        while pending or running:
+            while pending and len(running) < procs:
+                i, ch = pending.pop(0)
+                path = os.path.join(d, f'{i}-{len(ch)}.pkl')
+                running[_run_chunk(fn, ch, path)] = (i, ch, path)
+            pid, status = os.wait()
+            if pid not in running:
+                continue
+            i, ch, path = running.pop(pid)
+            if status == 0 and os.path.exists(path):
+                with open(path, 'rb') as f:
+                    out = pickle.load(f)
+                os.remove(path)
+                results[i:i + len(ch)] = out
+            elif len(ch) == 1:
+                results[i] = Crash(status)
+            else:
+                pending = [(i + k, [x]) for k, x in enumerate(ch)] + pending
+    finally:
+        import shutil
+        shutil.rmtree(d, ignore_errors=True)
+    return results
